@@ -607,25 +607,50 @@ per_n!(body_from_static_words; vk_int_repr_from_static_words_n0 = 0, vk_int_repr
     vk_int_repr_from_static_words_n2 = 2, vk_int_repr_from_static_words_n3 = 3,
     vk_int_repr_from_static_words_n5 = 5);
 
-// ---------------------------------------------------------------- ones(n), every n in lo..=hi (concrete loop)
+// ---------------------------------------------------------------- ones(n)
+fn check_ones(n: usize, class: usize) {
+    let r = Repr::ones(n);
+    // 2^n - 1: n / 64 full words and n % 64 bits on top
+    let full = n / 64;
+    let rem = n % 64;
+    let mut m = Model { neg: false, w: [0; MAXW], len: full + (rem != 0) as usize };
+    let mut i = 0;
+    while i < MAXW {
+        if i < full {
+            m.w[i] = Word::MAX;
+        } else if i == full && rem != 0 {
+            m.w[i] = ((1u128 << rem) - 1) as Word;
+        }
+        i += 1;
+    }
+    finish_k(r, &m, class);
+}
+
+// symbolic n: 0..=128 must be inline, 129..=200 heap
+#[cfg_attr(kani, kani::proof)]
+#[cfg_attr(kani, kani::unwind(12))]
+#[cfg_attr(not(kani), test)]
+fn vk_int_repr_ones_any_inline() {
+    let n: usize = any();
+    assume(n <= 128);
+    check_ones(n, INLINE);
+    cover();
+}
+#[cfg_attr(kani, kani::proof)]
+#[cfg_attr(kani, kani::unwind(12))]
+#[cfg_attr(not(kani), test)]
+fn vk_int_repr_ones_any_heap() {
+    let n: usize = any();
+    assume(n > 128 && n <= 200);
+    check_ones(n, HEAP);
+    cover();
+}
+
+// the same for every n in lo..=hi one by one (concrete loop, concrete allocation sizes)
 fn body_ones(lo: usize, hi: usize) {
     let mut n = lo;
     while n <= hi {
-        let r = Repr::ones(n);
-        // 2^n - 1: n / 64 full words and n % 64 bits on top
-        let full = n / 64;
-        let rem = n % 64;
-        let mut m = Model { neg: false, w: [0; MAXW], len: full + (rem != 0) as usize };
-        let mut i = 0;
-        while i < MAXW {
-            if i < full {
-                m.w[i] = Word::MAX;
-            } else if i == full && rem != 0 {
-                m.w[i] = ((1u128 << rem) - 1) as Word;
-            }
-            i += 1;
-        }
-        finish_k(r, &m, if n <= 128 { INLINE } else { HEAP });
+        check_ones(n, if n <= 128 { INLINE } else { HEAP });
         n += 1;
     }
 }
